@@ -165,7 +165,7 @@ def liesel_scenario(chk, name):
         m.update()
         direct = m.state
         vv = M.values_of
-        return dict(r2=vv(r2), r2f=vv(r2f), direct=vv(direct), extract=used.extract_position(list(p2), r2), lp=used.log_prob(r2), S2=vv(S2),
+        return dict(r2=vv(r2), r2f=vv(r2f), direct=vv(direct), extract=used.extract_position(list(p2), r2), extract_gen=used.extract_position((k_ for k_ in list(p2)), r2), lp=used.log_prob(r2), S2=vv(S2),
                     flags=jnp.asarray([bool(v.outdated) for v in r2.values()]))
     pre = "".join(ch for ch in name if ch.isalnum())
     sym = (symlike(p1_ex, pre + "p1"), symlike(s_ex, pre + "s1"), symlike(p2_ex, pre + "p2"), symlike(s_ex, pre + "s2"))
@@ -215,7 +215,9 @@ def liesel_scenario(chk, name):
     obs.append(Obligation(f"[{name}] update_state = assigning the position to the model directly and updating it fully (every node, incl. derived nodes that feed no distribution)", [enc],
                           lambda V: ([], same_state(V.out["r2"], V.out["direct"])), signature=f"{name}:equals-direct"))
     obs.append(Obligation(f"[{name}] extract_position(keys, update_state(position, state)) = position", [enc],
-                          lambda V: ([], z3.And(*[all_eq(V.out["extract"][k], p2sym[k]) for k in p2sym])), signature=f"{name}:put-get"))
+                          lambda V: ([], z3.And(z3.BoolVal(set(V.out["extract"]) == set(p2sym) == set(V.out["extract_gen"])),
+                                                *[z3.And(all_eq(V.out["extract"][k], p2sym[k]), all_eq(V.out["extract_gen"][k], p2sym[k])) for k in p2sym if k in V.out["extract_gen"] and k in V.out["extract"]])),
+                          signature=f"{name}:put-get"))
     obs.append(Obligation(f"[{name}] interface.log_prob(state) = the model's log-probability at those values", [enc],
                           lambda V: ([], z3.And(all_eq(V.out["lp"], V.out["direct"]["_model_log_prob"]), all_eq(V.out["lp"], V.out["r2"]["_model_log_prob"]))),
                           signature=f"{name}:log_prob"))
